@@ -61,6 +61,7 @@ class OpGen:
         self.in_fragment = False
         self.used_aliases: set = set()
         self.used_vars: set = set()
+        self.current_kind = "query"
 
     # ------------------------------------------------------------------ helpers
     def uid(self) -> int:
@@ -98,8 +99,11 @@ class OpGen:
         if d:
             return d
         n = self.uid()
-        if self.rng.random() < 0.12:
-            free = [x for x in ("query", "variables", "response", "data", "operation_name") if x not in self.used_vars]
+        if self.rng.random() < (0.4 if self.current_kind == "subscription" else 0.12):
+            pool = ["query", "variables", "response", "data", "operation_name"]
+            if self.rng.random() < 0.4:
+                pool = ["Query", "QUERY", "query_", "Data", "DATA", "Variables", "Response", "data_"]  # become a method local's name only after the name mapping
+            free = [x for x in pool if x not in self.used_vars and x.lower().strip("_") not in {u.lower().strip("_") for u in self.used_vars}]
             if free:
                 name = self.rng.choice(free)
                 self.used_vars.add(name)
@@ -320,7 +324,7 @@ class OpGen:
         return "{ " + " ".join(sels) + " }"
 
     def fragment_directive(self) -> str:
-        if "directive.on_fragment" in self.dirty and self.rng.random() < 0.3:
+        if self.use_directives and self.rng.random() < 0.12:
             self.feats.add("directive.on_fragment")
             return " @%s(if: %s)" % (self.rng.choice(["skip", "include"]), self.rng.choice(["true", "false"]))
         return ""
@@ -368,6 +372,7 @@ class OpGen:
             return None
         self.vars = []
         self.used_vars = set()
+        self.current_kind = kind
         names = list(root.fields)
         if kind == "subscription":
             chosen = [self.rng.choice(names)]
